@@ -3,7 +3,7 @@
    (1) non-vacuity of hypotheses, (2) published test vectors (FIPS 180-4 / NIST examples, RFC 4231, RFC 4648 section 10)
    evaluated on the reference definitions: test vectors are TESTS of the reference definitions, not theorems. *)
 From Coq Require Import String Arith NArith List Bool.
-From V Require Import C37.Model C37.Proofs C37.ShaProofs.
+From V Require Import C37.Model C37.Keccak C37.Chacha C37.Proofs C37.ShaProofs C37.ExtraProofs.
 Import ListNotations.
 Open Scope N_scope.
 
@@ -141,6 +141,57 @@ Proof.
 Qed.
 Print Assumptions checks_decide_equality.
 
+(* ---------------------------------------------------------------- SHA-3 (sha3_224/256/384/512) *)
+Theorem sha3_output_length : forall outlen m, (outlen <= 200)%nat ->
+  length (sha3 outlen m) = outlen /\ Forall (fun b => b < 256) (sha3 outlen m).
+Proof. intros outlen m H. split; [apply sha3_length; exact H | apply sha3_bytes]. Qed.
+Print Assumptions sha3_output_length.
+
+(* pad10*1 fills the last block exactly: the padded message is a whole number of rate-sized blocks (rate = 144, 136,
+   104, 72 bytes), between 1 and rate bytes longer than the message, begins with the message and uses the bytes
+   0x06 .. 0x80 (0x86 when one byte is missing) *)
+Theorem sha3_padding_block_multiple : forall rate m, (0 < rate)%nat ->
+  (length (sha3_pad rate m) mod rate = 0 /\ length m < length (sha3_pad rate m) <= length m + rate)%nat /\
+  firstn (length m) (sha3_pad rate m) = m /\
+  (exists mid, sha3_pad rate m = m ++ [0x86] \/ sha3_pad rate m = m ++ [0x06] ++ mid ++ [0x80]).
+Proof. intros rate m H. split; [apply sha3_pad_blocks; exact H | apply sha3_pad_shape]. Qed.
+Print Assumptions sha3_padding_block_multiple.
+
+Theorem data_hash3_result_shape : forall outlen octet codes h, (outlen <= 200)%nat ->
+  data_hash3 outlen octet codes = Some h -> length h = (2 * outlen)%nat /\ forallb is_lower_hex h = true.
+Proof. exact data_hash3_shape. Qed.
+Print Assumptions data_hash3_result_shape.
+
+(* ---------------------------------------------------------------- crypto_data_encrypt/6, crypto_data_decrypt/6 *)
+(* for every key, nonce, aad and plaintext: decrypting the ciphertext with the tag gives the plaintext back; the
+   ciphertext is as long as the plaintext and the tag has 16 bytes *)
+Theorem aead_encrypt_decrypt : forall key nonce aad pt,
+  let e := aead_encrypt key nonce aad pt in
+  aead_decrypt key nonce aad (fst e) (snd e) = Some pt /\ length (fst e) = length pt /\ length (snd e) = 16%nat.
+Proof. exact aead_roundtrip. Qed.
+Print Assumptions aead_encrypt_decrypt.
+
+(* the same through the encoding option of crypto_data_encrypt (octet: codes are bytes; utf8: UTF-8 bytes, which
+   utf8bytes_roundtrip turns back into the characters) *)
+Theorem data_encrypt_decrypt : forall octet key nonce aad plain ct tag,
+  data_encrypt octet key nonce aad plain = Some (ct, tag) ->
+  exists pt ad, data_bytes octet plain = Some pt /\ data_bytes octet aad = Some ad /\
+                aead_decrypt key nonce ad ct tag = Some pt /\ length ct = length pt /\ length tag = 16%nat.
+Proof. exact data_encrypt_roundtrip. Qed.
+Print Assumptions data_encrypt_decrypt.
+
+Theorem aead_wrong_tag_rejected : forall key nonce aad ct tag,
+  tag <> poly1305 (aead_otk key nonce) (aead_mac_data aad ct) -> aead_decrypt key nonce aad ct tag = None.
+Proof. exact aead_rejects_other_tags. Qed.
+Print Assumptions aead_wrong_tag_rejected.
+
+Theorem checks_decide_equality_2 :
+  (forall n o cs out, check_hash3 n o cs out = true <-> out = data_hash3 n o cs) /\
+  (forall o key nonce aad plain ct tag,
+     check_encrypt o key nonce aad plain ct tag = true <-> data_encrypt o key nonce aad plain = Some (ct, tag)).
+Proof. split; [apply check_hash3_ok | apply check_encrypt_ok]. Qed.
+Print Assumptions checks_decide_equality_2.
+
 (* ================================================================ non-vacuity of the hypotheses *)
 Example ex_bytes : Forall (fun b => b < 256) [0; 1; 127; 128; 255].
 Proof. repeat constructor. Qed.
@@ -206,3 +257,36 @@ Example hmac_sha512_rfc4231 :
   hex_encode (hmac sha512 128 (repeat 0x0b 20) (codes "Hi There")) = codes "87aa7cdea5ef619d4ff0b4241a1d6cb02379f4e2ce4ec2787ad0b30545e17cdedaa833b7d6b8a702038b274eaea3f4e4be9d914eeb61f1702e696c203a126854" /\
   hex_encode (hmac sha512 128 (repeat 0xaa 131) (codes "Test Using Larger Than Block-Size Key - Hash Key First")) = codes "80b24263c7c1a3ebb71493c1dd7be8b49b46d1f41b4aeec1121b013783f8f3526b56d037e05f2598bd0fd2215d6a1e5295e64f73f63f0aec8b915a985d786598".
 Proof. vm_compute. repeat split. Qed.
+
+(* FIPS 202 example values: "abc", the empty message, and the 1600-bit message 0xA3 x 200 (two or three blocks) *)
+Example sha3_224_vectors :
+  hex_encode (sha3_224 (codes "abc")) = codes "e642824c3f8cf24ad09234ee7d3c766fc9a3a5168d0c94ad73b46fdf" /\
+  hex_encode (sha3_224 []) = codes "6b4e03423667dbb73b6e15454f0eb1abd4597f9a1b078e3f5b5a6bc7" /\
+  hex_encode (sha3_224 (repeat 0xa3 200)) = codes "9376816aba503f72f96ce7eb65ac095deee3be4bf9bbc2a1cb7e11e0".
+Proof. vm_compute. repeat split. Qed.
+Example sha3_256_vectors :
+  hex_encode (sha3_256 (codes "abc")) = codes "3a985da74fe225b2045c172d6bd390bd855f086e3e9d525b46bfe24511431532" /\
+  hex_encode (sha3_256 []) = codes "a7ffc6f8bf1ed76651c14756a061d662f580ff4de43b49fa82d80a4b80f8434a" /\
+  hex_encode (sha3_256 (repeat 0xa3 200)) = codes "79f38adec5c20307a98ef76e8324afbfd46cfd81b22e3973c65fa1bd9de31787".
+Proof. vm_compute. repeat split. Qed.
+Example sha3_384_vectors :
+  hex_encode (sha3_384 (codes "abc")) = codes "ec01498288516fc926459f58e2c6ad8df9b473cb0fc08c2596da7cf0e49be4b298d88cea927ac7f539f1edf228376d25" /\
+  hex_encode (sha3_384 []) = codes "0c63a75b845e4f7d01107d852e4c2485c51a50aaaa94fc61995e71bbee983a2ac3713831264adb47fb6bd1e058d5f004" /\
+  hex_encode (sha3_384 (repeat 0xa3 200)) = codes "1881de2ca7e41ef95dc4732b8f5f002b189cc1e42b74168ed1732649ce1dbcdd76197a31fd55ee989f2d7050dd473e8f".
+Proof. vm_compute. repeat split. Qed.
+Example sha3_512_vectors :
+  hex_encode (sha3_512 (codes "abc")) = codes "b751850b1a57168a5693cd924b6b096e08f621827444f70d884f5d0240d2712e10e116e9192af3c91a7ec57647e3934057340b4cf408d5a56592f8274eec53f0" /\
+  hex_encode (sha3_512 []) = codes "a69f73cca23a9ac5c8b567dc185a756e97c982164fe25859e0d1dcc1475c80a615b2123af1f5f94c11e3e9402c3ac558f500199d95b6d3e301758586281dcd26" /\
+  hex_encode (sha3_512 (repeat 0xa3 200)) = codes "e76dfad22084a8b1467fcf2ffa58361bec7628edf5f3fdc0e4805dc48caeeca81b7c13c30adf52a3659584739a2df46be589c51ca1a4a8416df6545a1ce8ba00".
+Proof. vm_compute. repeat split. Qed.
+
+(* RFC 8439: 2.5.2 (Poly1305), 2.8.2 (AEAD_CHACHA20_POLY1305: ciphertext and tag) *)
+Example poly1305_rfc8439 :
+  hex_encode (poly1305 (unhex "85d6be7857556d337f4452fe42d506a80103808afb0db2fd4abff6af4149f51b")
+                       (codes "Cryptographic Forum Research Group")) = codes "a8061dc1305136c6c22b8baf0c0127a9".
+Proof. vm_compute. reflexivity. Qed.
+Example aead_rfc8439 :
+  aead_encrypt rfc8439_key rfc8439_nonce rfc8439_aad (codes sunscreen) =
+  (unhex "d31a8d34648e60db7b86afbc53ef7ec2a4aded51296e08fea9e2b5a736ee62d63dbea45e8ca9671282fafb69da92728b1a71de0a9e060b2905d6a5b67ecd3b3692ddbd7f2d778b8c9803aee328091b58fab324e4fad675945585808b4831d7bc3ff4def08e4b7a9de576d26586cec64b6116",
+   unhex "1ae10b594f09e26a7e902ecbd0600691").
+Proof. vm_compute. reflexivity. Qed.
